@@ -11,6 +11,7 @@ mod seq;
 #[allow(dead_code)]
 mod util;
 
+#[cfg(not(feature = "noledger"))]
 #[global_allocator]
 static GLOBAL: ledger::Ledger = ledger::Ledger;
 
